@@ -791,6 +791,19 @@ def gen_quad_case(rng):
     p0 = {n: q(target[n] * rng.choice([F(3, 4), F(5, 4), F(3, 2), 1])) for n in names}
     c = {"quad": True, "kind": rng.choice(["steady_state", "time_course", "protocol"]), "p0": p0,
          "target": {n: q(v) for n, v in target.items()}, "method": rng.choice(["L-BFGS-B", "L-BFGS-B", "Nelder-Mead", "Powell", "TNC", "SLSQP"])}
+    if rng.random() < 0.3:
+        # the global optimisers; they are started from the boxes, so every fitted name gets one around the target
+        c["global"] = rng.choice(["differential_evolution", "shgo", "dual_annealing", "direct", "basinhopping"])
+        c["np_seed"] = rng.randrange(1 << 16)
+        order = list(names)
+        rng.shuffle(order)  # the caller's order, not p0's
+        c["bounds"] = {}
+        for n in order:
+            t = target[n]
+            lo, hi = rng.choice([(t / 4, t * 4), (t / 2, t * 2), (t * F(9, 8), t * 3)])
+            lo, hi = min(lo, F(p0[n])), max(hi, F(p0[n]))
+            c["bounds"][n] = [q(lo), q(hi)]
+        return c
     if rng.random() < 0.8:
         names_b = [n for n in names if rng.random() < 0.6] or [names[-1]]
         rng.shuffle(names_b)  # the caller's order, not p0's
@@ -810,6 +823,7 @@ def real_quad_case(c):
     import pandas as pd
     import scipy.optimize
     logging.getLogger("mxlpy").setLevel(logging.ERROR)
+    logging.getLogger().setLevel(logging.ERROR)  # scipy's shgo reports through the root logger
     warnings.filterwarnings("ignore")
     from mxlpy import fit, make_protocol
     from mxlpy.minimizers import _scipy as ms
@@ -823,16 +837,34 @@ def real_quad_case(c):
                    bounds=[list(b) for b in kw.get("bounds") or []])
         return res
 
+    def recording_global(name):
+        real = getattr(scipy.optimize, name)
+
+        def f(fun, *a, **kw):
+            res = real(fun, *a, **kw)
+            rec.update(x0=list(p0.values()), x=[float(t) for t in res.x], fun=float(res.fun), success=bool(res.success),
+                       bounds=None if not a else [[float(t) for t in b] for b in a[0]])
+            return res
+        return f
+
     model = build("chain", {"k1": 1.0, "k2": 2.0, "k3": 1.0})
     before = fingerprint(model)
     fitfn = {"steady_state": fit.steady_state, "time_course": fit.time_course, "protocol": fit.protocol_time_course}[c["kind"]]
     kw = dict(p0=p0, data=data, minimizer=fit.LocalScipyMinimizer(tol=1e-10, method=c["method"]), residual_fn=quad_residual)
+    if c.get("global"):
+        import numpy as np
+        np.random.seed(c["np_seed"])  # the stochastic global methods draw from numpy's global generator
+        kw["minimizer"] = ms.GlobalScipyMinimizer(method=c["global"])
     if c.get("bounds"):
         kw["bounds"] = {k: tuple(float(F(t)) for t in v) for k, v in c["bounds"].items()}
     if c["kind"] == "protocol":
         kw["protocol"] = make_protocol([(1, {"k1": 1.0})])
+    glob = ["basinhopping", "differential_evolution", "shgo", "dual_annealing", "direct"]
     old = ms.minimize
+    old_glob = {g: getattr(ms, g) for g in glob}
     ms.minimize = recording_minimize
+    for g in glob:
+        setattr(ms, g, recording_global(g))
     out = {}
     try:
         try:
@@ -841,6 +873,8 @@ def real_quad_case(c):
             return {"raised": type(e).__name__, "rec": rec, "after_equal": fingerprint(model) == before}
     finally:
         ms.minimize = old
+        for g in glob:
+            setattr(ms, g, old_glob[g])
     out["rec"] = rec
     out["after_equal"] = fingerprint(model) == before
     val = res.value
@@ -852,7 +886,7 @@ def real_quad_case(c):
 
 
 def judge_quad(ctx, c, r):
-    ctx.count(c, f"wrapper:{c['kind']}:{c['method']}:{len(c['p0'])}names:" + (
+    ctx.count(c, f"wrapper:{c['kind']}:{c.get('global') or c['method']}:{len(c['p0'])}names:" + (
         "no-bounds" if not c.get("bounds") else ("bounds-in-p0-order" if list(c["bounds"]) == [k for k in c["p0"] if k in c["bounds"]]
                                                  and list(c["p0"])[: len(c["bounds"])] == list(c["bounds"]) else "bounds-other-order/subset")))
     rec = r["rec"]
@@ -866,22 +900,27 @@ def judge_quad(ctx, c, r):
         Sb = [w if w is not None else (Mb[i] if Mb else Rb[i]) for i, w in enumerate(want)]
         ctx.judge({"stream": "bounds", **c}, Rb, Sb, Mb, what="boxes passed to scipy.optimize.minimize follow the names of p0")
     if "raised" in r or isinstance(r.get("fit"), str):
-        ctx.judge({"stream": "quad", **c}, {"input_untouched": r["after_equal"]}, {"input_untouched": True}, None,
-                  what="failed / raising minimisation leaves the input alone")
+        # a FitFailure value is an honest outcome; an exception out of a shipped minimiser on a well-formed request is not
+        ctx.judge({"stream": "quad", **c}, {"input_untouched": r["after_equal"], "raised": r.get("raised")},
+                  {"input_untouched": True, "raised": None}, None,
+                  what="a minimisation that does not succeed is a FitFailure value (no exception) and leaves the input alone")
         return
     f = r["fit"]
     tgt = {k: float(F(v)) for k, v in c["target"].items()}
     quad = lambda d: sum((d[k] - tgt[k]) ** 2 for k in tgt)  # noqa: E731
     best = dict(f["best"])
     tolr = 1e-12 * max(1.0, abs(f["loss"]))
+    glob = c.get("global")
     R = {"loss_is_residual_at_best": abs(f["loss"] - quad(best)) <= tolr,
-         "loss_le_residual_p0": f["loss"] <= quad({k: float(F(v)) for k, v in c["p0"].items()}) + tolr,
+         # the global optimisers do not start from p0: nothing is promised relative to it
+         "loss_le_residual_p0": True if glob else f["loss"] <= quad({k: float(F(v)) for k, v in c["p0"].items()}) + tolr,
          "names": list(best), "input_untouched": r["after_equal"],
          "best_within_requested_bounds": all(float(F(c["bounds"][k][0])) - 1e-9 <= v <= float(F(c["bounds"][k][1])) + 1e-9
                                              for k, v in best.items() if k in (c.get("bounds") or {}))}
     S = {"loss_is_residual_at_best": True, "loss_le_residual_p0": True, "names": list(c["p0"]), "input_untouched": True,
          "best_within_requested_bounds": True}
-    ctx.judge({"stream": "quad", **c}, R, S, None, what="fit.* through a caller-supplied residual: honest loss, names, boxes respected")
+    ctx.judge({"stream": "quad", **c}, R, S, None, finding="F-C20-9" if glob == "basinhopping" else None,
+              what="fit.* through a caller-supplied residual: honest loss, names, boxes respected")
     if ctx.driver_ok:
         (mv,) = driver.call_batch([{"op": "c20", "fit": {"p0": [[k, q(F(v))] for k, v in c["p0"].items()],
                                                          "res": [[q(F(x)) for x in rec["x"]], q(F(rec["fun"]))]}}])
@@ -1365,6 +1404,11 @@ def run(ctx):
     # the pool-spawning cases go first so that they overlap with the cheap ones
     fit_cases = [gen_multi_case(rng, "ens") for _ in range(ctx.n(2, 12))] + [gen_multi_case(rng, "joint") for _ in range(ctx.n(2, 8))]
     fit_cases += gen_fit_cases(ctx) + [gen_quad_case(rng) for _ in range(ctx.n(40, 600))]
+    # every global method once on a fixed request whose box for k1 EXCLUDES the target (5): the methods that take
+    # bounds end on the box, basinhopping ignores it (F-C20-9)
+    fit_cases += [{"quad": True, "kind": "steady_state", "p0": {"k1": "6", "k2": "3/2"}, "target": {"k1": "5", "k2": "2"},
+                   "method": "L-BFGS-B", "global": g, "np_seed": 7, "bounds": {"k2": ["1", "4"], "k1": ["45/8", "15"]}}
+                  for g in ("differential_evolution", "shgo", "dual_annealing", "direct", "basinhopping")]
     fit_cases += [gen_driver_case(rng) for _ in range(ctx.n(28, 300))]
     fit_cases += [gen_pure_case(rng) for _ in range(ctx.n(20, 250))]
     import mxlpy  # noqa: F401
